@@ -1,5 +1,6 @@
 import CssVerif.Lemmas.Num
 import CssVerif.Lemmas.NumColor
+import CssVerif.Lemmas.NumStr
 import CssVerif.Model.NumF64
 /-!
 # C18 — value normalisation never changes what a value denotes
@@ -258,11 +259,33 @@ theorem color_function_channels_stable (s t : List CItem) (h : SameComps s t) : 
   funcChannels_congr h
 
 
-/-! ## strings and URLs: witnesses of the known findings that the model exhibits
+/-! ## strings and URLs
 
-The general round-trip statement for strings and URLs (`cssStringDenote (helperString r) = some (storedDenote r)`
-for every stored value `r` without an escaped double quote; `writtenUrlDenote (helperUri r) = some (storedDenote r)`
-for every `r` outside the three regions below) is checked by correspondence + oracle only; it is not yet a theorem. -/
+`cssStringDenote` / `writtenUrlDenote` read a written string / `url(...)` as CSS 2.1 defines it (hex escapes with
+their optional white space, simple escapes, line continuations; a raw line break or an early closing quote is not a
+string; an unquoted URL may only contain the characters of the `url` production). For every content **without a
+backslash** the statement is a theorem for all inputs; for stored values with simple escapes (`\c`) the full statement
+
+    cssStringDenote (helperString r) = some (storedDenote r)      for every r with storedOk r
+    writtenUrlDenote (helperUri r)   = some (storedDenote r)      for every r with storedOk r ∧ noUrlControl r
+
+is checked by the kernel for all `r` of length ≤ 3 over a ten-character alphabet (`*_small_scope`, a test), by the
+correspondence and by the oracle; outside `storedOk` / `noUrlControl` it is false — witnesses below. -/
+
+/-- **strings keep their exact character content**: for every content without backslash — quotes of both kinds,
+line breaks, parentheses, white space, any non-ASCII or control character — what `helper.string` writes is one
+complete CSS string denoting exactly that content -/
+theorem string_written_denotes_content (r : List Nat) (hr : ∀ c ∈ r, c ≠ cBackslash) :
+    cssStringDenote (helperString r) = some r :=
+  helperString_denotes r hr
+
+/-- **URLs keep their exact character content**: for every URL without backslash and without the control characters
+of `C18-url-control-char`, the `url(...)` that `helper.uri` writes (quoted exactly when the URL contains
+`( ) ; , ' "` or white space) is readable and denotes exactly that URL -/
+theorem url_written_denotes_content (r : List Nat) (hr : ∀ c ∈ r, c ≠ cBackslash)
+    (hc : ∀ c ∈ r, isUrlChar c = true ∨ forbiddenInUri c = true) :
+    writtenUrlDenote (helperUri r) = some r :=
+  helperUri_denotes r hr hc
 
 /-- `C18-escaped-dquote`: the stored value `a\"b` (from `'a\"b'`) is written `"a\\"b"`, which is not one string -/
 theorem escaped_dquote_witness :
